@@ -189,6 +189,122 @@ Qed.
 Lemma Kept_nil_inv k : Kept [] k -> k = [].
 Proof. intro H. inversion H. reflexivity. Qed.
 
+(* ------------------------------- Kept with the context of every drop *)
+
+(* `KeptJ p2 p1 used kept`: Kept, where p2 p1 are the two tokens before `used`
+   in the token list, and every dropped spacer stands in ARGUMENT POSITION:
+   the token before it closes a group, or the token before that is an Escape
+   (so the token before the spacer is a command name). *)
+Definition closer_cat (x : token) : bool := is_tc TGroupEnd x || is_tc TBracketEnd x.
+
+Definition argpos (p2 p1 : option token) : Prop :=
+  (exists x, p1 = Some x /\ closer_cat x = true) \/
+  (exists e, p2 = Some e /\ is_tc TEscape e = true).
+
+Inductive KeptJ : option token -> option token -> list token -> list token -> Prop :=
+| KJ_nil p2 p1 : KeptJ p2 p1 [] []
+| KJ_keep p2 p1 t ts ks : KeptJ p1 (Some t) ts ks -> KeptJ p2 p1 (t :: ts) (t :: ks)
+| KJ_drop p2 p1 sp t ts ks :
+    is_tc TMergedSpacer sp = true -> opener t -> argpos p2 p1 ->
+    KeptJ p1 (Some sp) (t :: ts) ks -> KeptJ p2 p1 (sp :: t :: ts) ks.
+
+Fixpoint ctx (p2 p1 : option token) (a : list token) : option token * option token :=
+  match a with
+  | [] => (p2, p1)
+  | t :: ts => ctx p1 (Some t) ts
+  end.
+
+Lemma KeptJ_Kept p2 p1 a k : KeptJ p2 p1 a k -> Kept a k.
+Proof. induction 1; [constructor | apply Kept_keep; assumption | apply Kept_drop; assumption]. Qed.
+
+Lemma KeptJ_app p2 p1 a ka b kb :
+  KeptJ p2 p1 a ka -> KeptJ (fst (ctx p2 p1 a)) (snd (ctx p2 p1 a)) b kb ->
+  KeptJ p2 p1 (a ++ b) (ka ++ kb).
+Proof.
+  intros Ha. revert b kb. induction Ha; intros b kb Hb; cbn [app ctx] in *.
+  - exact Hb.
+  - apply KJ_keep. apply IHHa. exact Hb.
+  - apply KJ_drop; try assumption. apply IHHa. exact Hb.
+Qed.
+
+Lemma KeptJ_refl l : forall p2 p1, KeptJ p2 p1 l l.
+Proof. induction l as [|t l IH]; intros p2 p1; [constructor | apply KJ_keep, IH]. Qed.
+
+(* pieces that may be placed anywhere / only in argument position *)
+Definition KJall (used kept : list token) : Prop := forall p2 p1, KeptJ p2 p1 used kept.
+Definition KJarg (used kept : list token) : Prop :=
+  forall p2 p1, argpos p2 p1 -> KeptJ p2 p1 used kept.
+
+(* after the piece the position is again an argument position *)
+Definition APres (used : list token) : Prop :=
+  used = [] \/ exists l x, used = l ++ [x] /\ closer_cat x = true.
+
+Lemma ctx_app p2 p1 a b : ctx p2 p1 (a ++ b) = ctx (fst (ctx p2 p1 a)) (snd (ctx p2 p1 a)) b.
+Proof. revert p2 p1. induction a as [|t a IH]; intros p2 p1; [reflexivity|]. cbn [app ctx]. apply IH. Qed.
+
+Lemma ctx_snoc p2 p1 l x : snd (ctx p2 p1 (l ++ [x])) = Some x.
+Proof. rewrite ctx_app. reflexivity. Qed.
+
+Lemma APres_argpos used p2 p1 : APres used -> argpos p2 p1 ->
+  argpos (fst (ctx p2 p1 used)) (snd (ctx p2 p1 used)).
+Proof.
+  intros [->|(l & x & -> & Hx)] Ha; [exact Ha|]. left. exists x. split; [apply ctx_snoc | exact Hx].
+Qed.
+
+Lemma KJall_app a ka b kb : KJall a ka -> KJall b kb -> KJall (a ++ b) (ka ++ kb).
+Proof. intros Ha Hb p2 p1. apply KeptJ_app; [apply Ha | apply Hb]. Qed.
+
+Lemma KJall_nil : KJall [] [].
+Proof. intros p2 p1. constructor. Qed.
+
+Lemma KJall_refl l : KJall l l.
+Proof. intros p2 p1. apply KeptJ_refl. Qed.
+
+Lemma KJall_cons t a ka : KJall a ka -> KJall (t :: a) (t :: ka).
+Proof. intros H p2 p1. apply KJ_keep. apply H. Qed.
+
+Lemma KJarg_nil : KJarg [] [].
+Proof. intros p2 p1 _. constructor. Qed.
+
+Lemma KJarg_app a ka b kb : KJarg a ka -> APres a -> KJarg b kb -> KJarg (a ++ b) (ka ++ kb).
+Proof.
+  intros Ha Pa Hb p2 p1 Hp. apply KeptJ_app; [apply Ha; exact Hp|].
+  apply Hb. apply APres_argpos; assumption.
+Qed.
+
+Lemma APres_app a b : APres a -> APres b -> APres (a ++ b).
+Proof.
+  intros Ha [->|(l & x & -> & Hx)]; [rewrite app_nil_r; exact Ha|].
+  right. exists (a ++ l), x. rewrite app_assoc. auto.
+Qed.
+
+Lemma APres_nil : APres [].
+Proof. left. reflexivity. Qed.
+
+(* arg pieces: valid in argument position, and leave one behind *)
+Definition KJA (used kept : list token) : Prop := KJarg used kept /\ APres used.
+(* group contents: valid anywhere, ending with the closer *)
+Definition KJC (used kept : list token) : Prop :=
+  KJall used kept /\ exists l x, used = l ++ [x] /\ closer_cat x = true.
+
+Lemma KJall_Kept a k : KJall a k -> Kept a k.
+Proof. intro H. exact (KeptJ_Kept None None a k (H None None)). Qed.
+
+Lemma KJarg_Kept a k : KJarg a k -> Kept a k.
+Proof.
+  intro H. apply (KeptJ_Kept None (Some (mkt [] 0%Z TGroupEnd)) a k). apply H.
+  left. eexists. split; reflexivity.
+Qed.
+
+Lemma group_tok_end_closer k c : group_tok_end k = Some c -> c = TGroupEnd \/ c = TBracketEnd.
+Proof. destruct k; vm_compute; intro H; inversion H; auto. Qed.
+
+Lemma group_end_closer k t : is_group_end k t = true -> closer_cat t = true.
+Proof.
+  intro H. apply is_group_end_tok in H. apply group_tok_end_closer in H.
+  unfold closer_cat, is_tc. destruct H as [-> | ->]; reflexivity.
+Qed.
+
 Lemma texts_one t : texts [t] = ttext t.
 Proof. unfold texts. cbn. apply app_nil_r. Qed.
 
@@ -500,14 +616,14 @@ Notation Hyp := (Hyp SK).
 Definition fp_expr f := forall skip m toks e rest,
   sub_skip SK skip -> Hyp toks -> read_expr f skip true m toks = Ok (e, rest) ->
   exists used, toks = used ++ rest /\ (nobare e = true ->
-    exists kept, Kept used kept /\ estr e = texts kept /\ LKP used kept /\
+    exists kept, KJall used kept /\ estr e = texts kept /\ LKP used kept /\
       det (fun g l => read_expr g skip true m l) LK kept rest e /\
       (frag toks = true -> succ (fun l => read_expr f skip true m l) LKp kept rest e) /\
       PVP used kept rest).
 Definition fp_item f := forall acc toks es rest,
   Hyp toks -> read_item_loop f acc toks = Ok (es, rest) ->
   exists used new, toks = used ++ rest /\ es = acc ++ new /\ (forallb nobare new = true ->
-    exists kept, Kept used kept /\ estr_list new = texts kept /\ LKP used kept /\
+    exists kept, KJall used kept /\ estr_list new = texts kept /\ LKP used kept /\
       det (fun g l => read_item_loop g acc l) LK kept rest es /\
       (frag toks = true -> succ (fun l => read_item_loop f acc l) LKp kept rest es) /\
       PVP used kept rest).
@@ -515,7 +631,7 @@ Definition fp_math f := forall k pos acc toks e rest,
   Hyp toks -> read_math_loop f k pos true acc toks = Ok (e, rest) ->
   exists used new, toks = used ++ rest /\ e = EMath k (acc ++ new) pos /\
    (forallb nobare new = true ->
-    exists kept, Kept used kept /\ estr_list new ++ math_end k = texts kept /\ LKU used kept /\
+    exists kept, KJall used kept /\ estr_list new ++ math_end k = texts kept /\ LKU used kept /\
       det (fun g l => read_math_loop g k pos true acc l) anyR kept rest e /\
       (frag toks = true -> succ (fun l => read_math_loop f k pos true acc l) anyR kept rest e) /\
       PVU used kept rest).
@@ -524,7 +640,7 @@ Definition fp_env f := forall name args pos skip m acc toks e rest,
   read_env_loop f name args pos skip true m acc toks = Ok (e, rest) ->
   exists used new, toks = used ++ rest /\ e = ENamed name args (acc ++ new) pos /\
    (forallb nobare new = true ->
-    exists kept, Kept used kept /\ estr_list new ++ env_end name = texts kept /\ LKU used kept /\
+    exists kept, KJall used kept /\ estr_list new ++ env_end name = texts kept /\ LKU used kept /\
       det (fun g l => read_env_loop g name args pos skip true m acc l) anyR kept rest e /\
       (frag toks = true ->
        succ (fun l => read_env_loop f name args pos skip true m acc l) LK kept rest e) /\
@@ -533,7 +649,7 @@ Definition fp_command f := forall nreq nopt m toks name args rest,
   Hyp toks -> read_command f nreq nopt 0 true m toks = Ok ((name, args), rest) ->
   (toks = [] /\ name = [] /\ args = [] /\ rest = []) \/
   exists nt used, toks = nt :: used ++ rest /\ name = ttext nt /\ (okargs args = true ->
-    exists kept, Kept used kept /\ estr_list args = texts kept /\
+    exists kept, (forall e, is_tc TEscape e = true -> KeptJ (Some e) (Some nt) used kept) /\ estr_list args = texts kept /\
       det (fun g l => read_command g nreq nopt 0 true m l) LK (nt :: kept) rest (name, args) /\
       (frag toks = true ->
        succ (fun l => read_command f nreq nopt 0 true m l) LK (nt :: kept) rest (name, args)) /\
@@ -541,35 +657,35 @@ Definition fp_command f := forall nreq nopt m toks name args rest,
 Definition fp_args f := forall nreq nopt m toks args rest,
   Hyp toks -> read_args f nreq nopt true m toks = Ok (args, rest) ->
   exists used, toks = used ++ rest /\ (okargs args = true ->
-    exists kept, Kept used kept /\ estr_list args = texts kept /\
+    exists kept, KJarg used kept /\ estr_list args = texts kept /\
       det (fun g l => read_args g nreq nopt true m l) LK kept rest args /\
       (frag toks = true -> succ (fun l => read_args f nreq nopt true m l) LK kept rest args) /\
       LKsP used kept).
 Definition fp_opt f := forall args nopt m toks args' n' rest,
   Hyp toks -> read_arg_optional f args nopt true m toks = Ok ((args', n'), rest) ->
   exists used new, toks = used ++ rest /\ args' = args ++ new /\ (okargs new = true ->
-    exists kept, Kept used kept /\ estr_list new = texts kept /\ ArgP used kept /\
+    exists kept, KJA used kept /\ estr_list new = texts kept /\ ArgP used kept /\
       det (fun g l => read_arg_optional g args nopt true m l) LKs kept rest (args', n') /\
       (frag toks = true ->
        succ (fun l => read_arg_optional f args nopt true m l) LKs kept rest (args', n'))).
 Definition fp_req f := forall args nreq m toks args' n' rest,
   Hyp toks -> read_arg_required f args nreq true m toks = Ok ((args', n'), rest) ->
   exists used new, toks = used ++ rest /\ args' = args ++ new /\ (okargs new = true ->
-    exists kept, Kept used kept /\ estr_list new = texts kept /\ ArgP used kept /\
+    exists kept, KJA used kept /\ estr_list new = texts kept /\ ArgP used kept /\
       det (fun g l => read_arg_required g args nreq true m l) LKs kept rest (args', n') /\
       (frag toks = true ->
        succ (fun l => read_arg_required f args nreq true m l) LKs kept rest (args', n'))).
 Definition fp_arg f := forall c m toks e rest,
   tok_wf c -> Hyp toks -> read_arg f c true m toks = Ok (e, rest) ->
   exists used, toks = used ++ rest /\ is_group e = true /\ (nobare e = true ->
-    exists kept, Kept used kept /\ estr e = ttext c ++ texts kept /\
+    exists kept, KJC used kept /\ estr e = ttext c ++ texts kept /\
       det (fun g l => read_arg g c true m l) anyR kept rest e /\
       (frag toks = true -> succ (fun l => read_arg f c true m l) anyR kept rest e)).
 Definition fp_argloop f := forall k pos m acc toks e rest,
   Hyp toks -> read_arg_loop f k pos true m acc toks = Ok (e, rest) ->
   exists used new, toks = used ++ rest /\ e = EGroup k (acc ++ new) pos /\
    (forallb nobare new = true ->
-    exists kept, Kept used kept /\ estr_list new ++ group_end k = texts kept /\ LKU used kept /\
+    exists kept, KJC used kept /\ estr_list new ++ group_end k = texts kept /\ LKU used kept /\
       det (fun g l => read_arg_loop g k pos true m acc l) anyR kept rest e /\
       (frag toks = true -> succ (fun l => read_arg_loop f k pos true m acc l) anyR kept rest e) /\
       PVU used kept rest).
@@ -586,7 +702,10 @@ Proof.
   destruct (is_group_end k t) eqn:Eend.
   - inversion H; subst. exists [t], [].
     split; [reflexivity|]. split; [rewrite app_nil_r; reflexivity|].
-    intros _. exists [t]. split; [apply Kept_refl|]. split.
+    intros _. exists [t]. split.
+    { split; [apply KJall_refl|]. exists [], t. split; [reflexivity|].
+      eapply group_end_closer; exact Eend. }
+    split.
     { simpl. rewrite texts_one. symmetry.
       apply Hyp_head_wf in Hy. apply Hy. apply is_group_end_tok. exact Eend. }
     destruct (group_end_cats _ _ Eend) as [S1 S2].
@@ -606,7 +725,10 @@ Proof.
     intro Hn. simpl in Hn. apply andb_true_iff in Hn. destruct Hn as [Hn1 Hn2].
     destruct (C1 Hn1) as (k1 & K1 & T1 & L1 & D1 & U1 & P1).
     destruct (C2 Hn2) as (k2 & K2 & T2 & L2 & D2 & U2 & P2).
-    exists (k1 ++ k2). split; [apply Kept_app; assumption|]. split.
+    exists (k1 ++ k2). split.
+    { destruct K2 as (K2 & l2 & x2 & E2 & Hx2). split; [apply KJall_app; assumption|].
+      exists (u1 ++ l2), x2. rewrite E2, app_assoc. auto. }
+    split.
     { change (estr_list (e1 :: new)) with (estr e1 ++ estr_list new).
       rewrite <- app_assoc, T1, T2, texts_app. reflexivity. }
     split; [apply LKP_LKU_app; assumption|].
@@ -653,7 +775,7 @@ Proof.
   destruct (is_math_end k t) eqn:Eend.
   - inversion H; subst. exists [t], [].
     split; [reflexivity|]. split; [rewrite app_nil_r; reflexivity|].
-    intros _. exists [t]. split; [apply Kept_refl|]. split.
+    intros _. exists [t]. split; [apply KJall_refl|]. split.
     { simpl. rewrite texts_one. symmetry.
       apply Hyp_head_wf in Hy. apply Hy. apply is_math_end_tok. exact Eend. }
     destruct (math_end_cats _ _ Eend) as [S1 S2].
@@ -673,7 +795,7 @@ Proof.
     intro Hn. simpl in Hn. apply andb_true_iff in Hn. destruct Hn as [Hn1 Hn2].
     destruct (C1 Hn1) as (k1 & K1 & T1 & L1 & D1 & U1 & P1).
     destruct (C2 Hn2) as (k2 & K2 & T2 & L2 & D2 & U2 & P2).
-    exists (k1 ++ k2). split; [apply Kept_app; assumption|]. split.
+    exists (k1 ++ k2). split; [apply KJall_app; assumption|]. split.
     { change (estr_list (e1 :: new)) with (estr e1 ++ estr_list new).
       rewrite <- app_assoc, T1, T2, texts_app. reflexivity. }
     split; [apply LKP_LKU_app; assumption|].
@@ -784,17 +906,27 @@ Proof. intro H. unfold after_spacer. rewrite H. reflexivity. Qed.
 (* the attached group: what is consumed, what is kept *)
 Lemma attach_kept toks b c src2 ug src3 u2 rest kg k2 :
   read_spacer toks = (b, c :: src2) -> is_opener c = true ->
-  src2 = ug ++ src3 -> src3 = u2 ++ rest -> Kept ug kg -> Kept u2 k2 ->
-  exists used, toks = used ++ rest /\ Kept used (c :: kg ++ k2) /\ ArgP used (c :: kg ++ k2).
+  src2 = ug ++ src3 -> src3 = u2 ++ rest -> KJC ug kg -> KJA u2 k2 ->
+  exists used, toks = used ++ rest /\ KJA used (c :: kg ++ k2) /\ ArgP used (c :: kg ++ k2).
 Proof.
-  intros Esp Hop E2 E3 Kg K2.
-  assert (KK : Kept (c :: ug ++ u2) (c :: kg ++ k2)) by (apply Kept_keep, Kept_app; assumption).
+  intros Esp Hop E2 E3 (Kg & lg & xg & Eg & Hxg) (K2 & P2).
+  assert (KK : forall q2 q1, KeptJ q2 q1 (c :: ug ++ u2) (c :: kg ++ k2)).
+  { intros q2 q1. apply KJ_keep. apply KeptJ_app; [apply Kg|]. apply K2.
+    left. exists xg. split; [rewrite Eg; apply ctx_snoc | exact Hxg]. }
+  assert (PP : forall pre, APres (pre ++ c :: ug ++ u2)).
+  { intro pre. destruct P2 as [->|(l2 & x2 & -> & Hx2)].
+    - right. exists (pre ++ c :: lg), xg. rewrite app_nil_r, Eg, <- app_assoc. auto.
+    - right. exists (pre ++ c :: ug ++ l2), x2. split; [|exact Hx2].
+      rewrite <- !app_assoc. cbn [app]. rewrite <- app_assoc. reflexivity. }
   apply read_spacer_cases in Esp. destruct Esp as [->|(sp & -> & Hsp)].
   - exists (c :: ug ++ u2). split; [rewrite E2, E3; simpl; rewrite <- app_assoc; reflexivity|].
-    split; [exact KK|]. right. exists c, (ug ++ u2), (kg ++ k2). auto.
+    split; [split; [intros p2 p1 _; apply KK | apply (PP [])]|].
+    right. exists c, (ug ++ u2), (kg ++ k2). auto.
   - exists (sp :: c :: ug ++ u2).
     split; [rewrite E2, E3; simpl; rewrite <- app_assoc; reflexivity|].
-    split; [apply Kept_drop; [exact Hsp | apply is_opener_opener; exact Hop | exact KK]|].
+    split.
+    { split; [|apply (PP [sp])]. intros p2 p1 Hp.
+      apply KJ_drop; [exact Hsp | apply is_opener_opener; exact Hop | exact Hp | apply KK]. }
     right. exists c, (ug ++ u2), (kg ++ k2). split; [exact Hop|]. split; [reflexivity|].
     right. exists sp. auto.
 Qed.
@@ -813,13 +945,14 @@ Proof.
      exists c l, after_spacer toks = c :: l /\ is_tc TBracketBegin c = false) ->
     Ok (args, nopt, toks) = Ok (args', n', rest) ->
     exists used new, toks = used ++ rest /\ args' = args ++ new /\ (okargs new = true ->
-      exists kept, Kept used kept /\ estr_list new = texts kept /\ ArgP used kept /\
+      exists kept, KJA used kept /\ estr_list new = texts kept /\ ArgP used kept /\
         det (fun g l => read_arg_optional g args nopt true m l) LKs kept rest (args', n') /\
         (frag toks = true ->
          succ (fun l => read_arg_optional (S f) args nopt true m l) LKs kept rest (args', n')))).
   { intros a' k' r' Hc H'. inversion H'; subst. exists [], [].
     split; [reflexivity|]. split; [rewrite app_nil_r; reflexivity|]. intros _.
-    exists []. split; [constructor|]. split; [reflexivity|]. split; [left; auto|].
+    exists []. split; [split; [apply KJarg_nil | apply APres_nil]|].
+    split; [reflexivity|]. split; [left; auto|].
     split.
     { intros g Y r Hlk HB. cbn [app] in HB. eapply opt_stop_B; eassumption. }
     intros _ Y Hlk. cbn [app]. eapply opt_stop_F; eassumption. }
@@ -877,13 +1010,14 @@ Proof.
                  (0 <? nreq)%Z = false) ->
     Ok (args, nreq, toks) = Ok (args', n', rest) ->
     exists used new, toks = used ++ rest /\ args' = args ++ new /\ (okargs new = true ->
-      exists kept, Kept used kept /\ estr_list new = texts kept /\ ArgP used kept /\
+      exists kept, KJA used kept /\ estr_list new = texts kept /\ ArgP used kept /\
         det (fun g l => read_arg_required g args nreq true m l) LKs kept rest (args', n') /\
         (frag toks = true ->
          succ (fun l => read_arg_required (S f) args nreq true m l) LKs kept rest (args', n')))).
   { intros a' k' r' Hc H'. inversion H'; subst. exists [], [].
     split; [reflexivity|]. split; [rewrite app_nil_r; reflexivity|]. intros _.
-    exists []. split; [constructor|]. split; [reflexivity|]. split; [left; auto|].
+    exists []. split; [split; [apply KJarg_nil | apply APres_nil]|].
+    split; [reflexivity|]. split; [left; auto|].
     split.
     { intros g Y r Hlk HB. cbn [app] in HB. eapply req_stop_B; eassumption. }
     intros _ Y Hlk. cbn [app]. eapply req_stop_F; eassumption. }
@@ -983,7 +1117,7 @@ Proof.
   unfold fp_args. intros nreq nopt m toks args rest Hy H. simpl in H.
   destruct ((nreq =? 0)%Z && (nopt =? 0)%Z) eqn:E00.
   { inversion H; subst. exists []. split; [reflexivity|]. intros _.
-    exists []. split; [constructor|]. split; [reflexivity|]. split.
+    exists []. split; [apply KJarg_nil|]. split; [reflexivity|]. split.
     { intros g Y r _ HB. destruct g as [|g]; [discriminate HB|].
       cbn [read_args app] in HB. rewrite E00 in HB. inversion HB. reflexivity. }
     split; [|apply LKsP_nil].
@@ -1004,14 +1138,14 @@ Proof.
                | [] => Ok (args2, nopt1, l)
                end).
   assert (S3 : exists u3 new3, src2 = u3 ++ src3 /\ args3 = args2 ++ new3 /\
-     (okargs new3 = true -> exists k3, Kept u3 k3 /\ estr_list new3 = texts k3 /\ ArgP u3 k3 /\
+     (okargs new3 = true -> exists k3, KJA u3 k3 /\ estr_list new3 = texts k3 /\ ArgP u3 k3 /\
         (forall t l, u3 = t :: l -> is_tc TMergedSpacer t = false) /\
         det F3 LKd k3 src3 (args3, n3) /\
         (frag src2 = true -> succ (F3 f) LKd k3 src3 (args3, n3)))).
   { destruct src2 as [|t2 ts2].
     { inversion H3; subst. exists [], []. split; [reflexivity|].
       split; [rewrite app_nil_r; reflexivity|]. intros _. exists [].
-      split; [constructor|]. split; [reflexivity|]. split; [left; auto|].
+      split; [split; [apply KJarg_nil | apply APres_nil]|]. split; [reflexivity|]. split; [left; auto|].
       split; [intros t l E; discriminate E|].
       split.
       { intros g Y r (_ & Hh) HB. cbn [app] in HB. destruct Y; [|discriminate Hh].
@@ -1039,7 +1173,7 @@ Proof.
       apply U3; [exact Hf | exact Hl].
     - inversion H3; subst. exists [], []. split; [reflexivity|].
       split; [rewrite app_nil_r; reflexivity|]. intros _. exists [].
-      split; [constructor|]. split; [reflexivity|]. split; [left; auto|].
+      split; [split; [apply KJarg_nil | apply APres_nil]|]. split; [reflexivity|]. split; [left; auto|].
       split; [intros t l E; discriminate E|].
       split.
       { intros g Y r (_ & Hh) HB. cbn [app] in HB. destruct Y as [|y Y']; [discriminate Hh|].
@@ -1060,14 +1194,14 @@ Proof.
                | [] => Ok (args3, nreq1, l)
                end).
   assert (S4 : exists u4 new4, src3 = u4 ++ rest /\ args = args3 ++ new4 /\
-     (okargs new4 = true -> exists k4, Kept u4 k4 /\ estr_list new4 = texts k4 /\ ArgP u4 k4 /\
+     (okargs new4 = true -> exists k4, KJA u4 k4 /\ estr_list new4 = texts k4 /\ ArgP u4 k4 /\
         (forall t l, u4 = t :: l -> is_tc TMergedSpacer t = false) /\
         det F4 LKd k4 rest (args, n4) /\
         (frag src3 = true -> succ (F4 f) LKd k4 rest (args, n4)))).
   { destruct src3 as [|t3 ts3].
     { inversion H4; subst. exists [], []. split; [reflexivity|].
       split; [rewrite app_nil_r; reflexivity|]. intros _. exists [].
-      split; [constructor|]. split; [reflexivity|]. split; [left; auto|].
+      split; [split; [apply KJarg_nil | apply APres_nil]|]. split; [reflexivity|]. split; [left; auto|].
       split; [intros t l E; discriminate E|].
       split.
       { intros g Y r (_ & Hh) HB. cbn [app] in HB. destruct Y; [|discriminate Hh].
@@ -1095,7 +1229,7 @@ Proof.
       apply U4; [exact Hf | exact Hl].
     - inversion H4; subst. exists [], []. split; [reflexivity|].
       split; [rewrite app_nil_r; reflexivity|]. intros _. exists [].
-      split; [constructor|]. split; [reflexivity|]. split; [left; auto|].
+      split; [split; [apply KJarg_nil | apply APres_nil]|]. split; [reflexivity|]. split; [left; auto|].
       split; [intros t l E; discriminate E|].
       split.
       { intros g Y r (_ & Hh) HB. cbn [app] in HB. destruct Y as [|y Y']; [discriminate Hh|].
@@ -1115,7 +1249,10 @@ Proof.
   destruct (C3 H3ok) as (k3 & K3 & T3 & A3 & N3 & D3 & U3).
   destruct (C4 H4ok) as (k4 & K4 & T4 & A4 & N4 & D4 & U4).
   exists (k1 ++ k2 ++ k3 ++ k4).
-  split; [repeat apply Kept_app; assumption|]. split.
+  destruct K1 as [K1 Q1]. destruct K2 as [K2 Q2]. destruct K3 as [K3 Q3]. destruct K4 as [K4 Q4].
+  split; [apply KJarg_app; [exact K1 | exact Q1|]; apply KJarg_app; [exact K2 | exact Q2|];
+          apply KJarg_app; assumption|].
+  split.
   { unfold args3, args2. rewrite !estr_list_app, !texts_app, T1, T2, T3, T4, <- !app_assoc.
     reflexivity. }
   split.
@@ -1177,7 +1314,9 @@ Proof.
   apply Ca in Ha; [|eapply Hyp_tail; exact Hy]. destruct Ha as (used & Eu & C).
   exists nt, used. split; [rewrite Eu; reflexivity|]. split; [reflexivity|].
   intro Hok. destruct (C Hok) as (kept & K & T & D & U & LS).
-  exists kept. split; [exact K|]. split; [exact T|]. split.
+  exists kept. split.
+  { intros e He. apply K. right. exists e. auto. }
+  split; [exact T|]. split.
   { intros g Y r Hlk HB. destruct g as [|g]; [discriminate HB|].
     cbn [read_command app] in HB. change (skipn 0 (nt :: kept ++ Y)) with (nt :: kept ++ Y) in HB.
     replace (length (nt :: kept ++ Y) <? 0)%nat with false in HB
@@ -1665,7 +1804,7 @@ Proof.
     bind (read_expr f [] true MNonMath toks)
          (fun '(e, src1) => read_item_loop f (acc ++ [e]) src1) = Ok (es, rest) ->
     exists used new, toks = used ++ rest /\ es = acc ++ new /\ (forallb nobare new = true ->
-      exists kept, Kept used kept /\ estr_list new = texts kept /\ LKP used kept /\
+      exists kept, KJall used kept /\ estr_list new = texts kept /\ LKP used kept /\
         (forall g Y r, LK rest Y ->
           bind (read_expr g [] true MNonMath (kept ++ Y))
                (fun '(e, src1) => read_item_loop g (acc ++ [e]) src1) = Ok r -> r = (es, Y)) /\
@@ -1683,7 +1822,7 @@ Proof.
     intro Hn. simpl in Hn. apply andb_true_iff in Hn. destruct Hn as [Hn1 Hn2].
     destruct (C1 Hn1) as (k1 & K1 & T1 & L1 & D1 & U1 & P1).
     destruct (C2 Hn2) as (k2 & K2 & T2 & L2 & D2 & U2 & P2).
-    exists (k1 ++ k2). split; [apply Kept_app; assumption|]. split.
+    exists (k1 ++ k2). split; [apply KJall_app; assumption|]. split.
     { change (estr_list (e1 :: new)) with (estr e1 ++ estr_list new).
       rewrite T1, T2, texts_app. reflexivity. }
     split; [apply LKP_app; assumption|]. split.
@@ -1699,7 +1838,7 @@ Proof.
   destruct toks as [|t src].
   { inversion H; subst es rest. exists [], [].
     split; [reflexivity|]. split; [rewrite app_nil_r; reflexivity|]. intros _.
-    exists []. split; [constructor|]. split; [reflexivity|]. split; [apply LKP_nil|].
+    exists []. split; [apply KJall_nil|]. split; [reflexivity|]. split; [apply LKP_nil|].
     split.
     { intros g Y r Hlk HB. cbn [app] in HB.
       apply LK_nil_inv in Hlk. subst Y. destruct g as [|g]; [discriminate HB|].
@@ -1712,7 +1851,7 @@ Proof.
     destruct (str_eqb cname s_end || str_eqb cname s_item) eqn:Estop.
     + inversion H; subst es rest. exists [], [].
       split; [reflexivity|]. split; [rewrite app_nil_r; reflexivity|]. intros _.
-      exists []. split; [constructor|]. split; [reflexivity|]. split; [apply LKP_nil|].
+      exists []. split; [apply KJall_nil|]. split; [reflexivity|]. split; [apply LKP_nil|].
       split.
       { intros g Y r Hlk HB. cbn [app] in HB.
         destruct (LK_hd _ _ _ _ Hlk eq_refl) as (l' & EL).
@@ -1752,7 +1891,7 @@ Proof.
   - destruct (is_tc TGroupEnd t) eqn:Eg.
     + inversion H; subst es rest. exists [], [].
       split; [reflexivity|]. split; [rewrite app_nil_r; reflexivity|]. intros _.
-      exists []. split; [constructor|]. split; [reflexivity|]. split; [apply LKP_nil|].
+      exists []. split; [apply KJall_nil|]. split; [reflexivity|]. split; [apply LKP_nil|].
       split.
       { intros g Y r Hlk HB. cbn [app] in HB.
         destruct (LK_hd _ _ _ _ Hlk eq_refl) as (l' & EL).
@@ -1878,7 +2017,7 @@ Proof.
       = Ok (e, rest) ->
     exists used new, toks = used ++ rest /\ e = ENamed name args (acc ++ new) pos /\
      (forallb nobare new = true ->
-      exists kept, Kept used kept /\ estr_list new ++ env_end name = texts kept /\
+      exists kept, KJall used kept /\ estr_list new ++ env_end name = texts kept /\
         LKU used kept /\
         (forall g Y r,
           bind (read_expr g skip true m (kept ++ Y))
@@ -1899,7 +2038,7 @@ Proof.
     intro Hn. simpl in Hn. apply andb_true_iff in Hn. destruct Hn as [Hn1 Hn2].
     destruct (C1 Hn1) as (k1 & K1 & T1 & L1 & D1 & U1 & P1).
     destruct (C2 Hn2) as (k2 & K2 & T2 & L2 & D2 & U2 & P2).
-    exists (k1 ++ k2). split; [apply Kept_app; assumption|]. split.
+    exists (k1 ++ k2). split; [apply KJall_app; assumption|]. split.
     { change (estr_list (e1 :: new)) with (estr e1 ++ estr_list new).
       rewrite <- app_assoc, T1, T2, texts_app. reflexivity. }
     split; [apply LKP_LKU_app; assumption|]. split.
@@ -1958,14 +2097,15 @@ Proof.
   apply bind_ok in H. destruct H as ([gr grest] & Harg' & H). inversion H; subst e grest. clear H.
   destruct (finish_end_kept _ _ _ _ _ _ _ _ _ _ _ _ _ _ Hy Et Hpeek Eend Ename Esp Harg')
     as (nm & n & cl & Hused & Ttx & Tnm & Hc & Hn & Hcl & Hsimple & Tn).
-  assert (Hsplit : exists used, t :: l = used ++ rest /\ Kept used [t; nm; c; n; cl] /\
+  assert (Hsplit : exists used, t :: l = used ++ rest /\ KJall used [t; nm; c; n; cl] /\
                      LKU used [t; nm; c; n; cl]).
   { pose proof (is_tc_excl _ TMergedSpacer _ Et ltac:(discriminate)) as Hts.
     destruct Hused as [E|(sp & Hsp & E)].
-    - exists [t; nm; c; n; cl]. split; [exact E|]. split; [apply Kept_refl|].
+    - exists [t; nm; c; n; cl]. split; [exact E|]. split; [apply KJall_refl|].
       apply LKU_two. exact Hts.
     - exists [t; nm; sp; c; n; cl]. split; [exact E|]. split.
-      + apply Kept_keep, Kept_keep, Kept_drop; [exact Hsp | left; exact Hc | apply Kept_refl].
+      + intros p2 p1. apply KJ_keep, KJ_keep, KJ_drop;
+          [exact Hsp | left; exact Hc | right; exists t; auto | apply KeptJ_refl].
       + apply LKU_two. exact Hts. }
   destruct Hsplit as (used & Eu & K & L).
   exists used, []. split; [exact Eu|]. split; [rewrite app_nil_r; reflexivity|].
@@ -2236,7 +2376,7 @@ Proof.
     apply Cm in H; [|exact Hys]. destruct H as (used & new & Eu & -> & C).
     exists (c :: used). split; [rewrite Eu; reflexivity|].
     cbn [nobare app]. intro Hn. destruct (C Hn) as (kept & K & T & L & D & U & P).
-    exists (c :: kept). split; [apply Kept_keep; exact K|]. split.
+    exists (c :: kept). split; [apply KJall_cons; exact K|]. split.
     { cbn [estr]. change (concat (map estr new)) with (estr_list new). rewrite T, texts_cons.
       f_equal. symmetry. apply Wc. apply math_kind_begin_tok. exact Ek. }
     destruct (math_begin_cats _ _ Ek) as [S1 S2].
@@ -2251,7 +2391,7 @@ Proof.
       - apply Cg in H; [|exact Wc | exact Hys]. destruct H as (used & Eu & _ & C).
         exists (c :: used). split; [rewrite Eu; reflexivity|].
         intro Hn. destruct (C Hn) as (kept & K & T & D & U).
-        exists (c :: kept). split; [apply Kept_keep; exact K|]. split; [rewrite T; reflexivity|].
+        exists (c :: kept). split; [apply KJall_cons; exact (proj1 K)|]. split; [rewrite T; reflexivity|].
         split; [apply LKU_LKP, LKU_plain;
                 [eapply is_tc_excl; [exact Eg | discriminate] | exact Ec]|].
         split.
@@ -2262,7 +2402,7 @@ Proof.
         intros Hf Y _. cbn [read_expr app]. rewrite Ek, Ec, Eg.
         apply U; [eapply frag_tail; exact Hf | exact I].
       - inversion H; subst. exists [c]. split; [reflexivity|]. intros _.
-        exists [c]. split; [apply Kept_refl|]. split; [rewrite texts_one; reflexivity|].
+        exists [c]. split; [apply KJall_refl|]. split; [rewrite texts_one; reflexivity|].
         split; [apply LKP_same|]. split.
         { intros g Y r _ HB. destruct g as [|g]; [discriminate HB|].
           cbn [read_expr app] in HB. rewrite Ek, Ec, Eg in HB. inversion HB. reflexivity. }
@@ -2277,7 +2417,7 @@ Proof.
   destruct Hcmd' as [(-> & -> & -> & ->)|(nt & usedc & Esrc & Ename & Cargs)].
   { (* lone escape at the end of the input *)
     simpl in H. inversion H; subst. exists [c]. split; [reflexivity|].
-    intros _. exists [c]. split; [apply Kept_refl|].
+    intros _. exists [c]. split; [apply KJall_refl|].
     split; [rewrite texts_one, Tc; reflexivity|]. split; [apply LKP_same|]. split.
     { intros g Y r Hlk HB. apply LK_nil_inv in Hlk. subst Y.
       destruct g as [|g]; [discriminate HB|].
@@ -2325,7 +2465,9 @@ Proof.
     destruct (Cargs Hn) as (kc & Kc & Tk & Dc & Uc & LS).
     destruct (C2 Hn3) as (k2 & K2 & T2 & L2 & D2 & U2 & P2).
     exists (c :: nt :: kc ++ k2).
-    split; [apply Kept_keep, Kept_keep, Kept_app; assumption|]. split.
+    pose proof (KeptJ_Kept _ _ _ _ (Kc c Ec)) as Kc'.
+    split; [intros p2 p1; apply KJ_keep, KJ_keep, KeptJ_app; [apply Kc; exact Ec | apply K2]|].
+    split.
     { rewrite !texts_cons, texts_app, Tc, Tk, T2. reflexivity. }
     split; [apply LKU_LKP, LKU_two; exact Hcs|]. split.
     { intros g Y r Hlk HB. destruct g as [|g]; [discriminate HB|].
@@ -2349,7 +2491,9 @@ Proof.
       rewrite Hstrip, estr_cmd, nobare_cmd. intro Hn. rewrite andb_true_r in Hn.
       destruct (Cargs Hn) as (kc & Kc & Tk & Dc & Uc & LS).
       exists (c :: nt :: kc ++ []).
-      split; [apply Kept_keep, Kept_keep, Kept_app; [exact Kc | constructor]|]. split.
+      pose proof (KeptJ_Kept _ _ _ _ (Kc c Ec)) as Kc'.
+      split; [intros p2 p1; apply KJ_keep, KJ_keep, KeptJ_app; [apply Kc; exact Ec | constructor]|].
+      split.
       { rewrite !texts_cons, app_nil_r, Tc, Tk. cbn [estr_list map concat]. rewrite app_nil_r.
         reflexivity. }
       split; [apply LKU_LKP, LKU_two; exact Hcs|]. split.
@@ -2392,7 +2536,10 @@ Proof.
     rewrite andb_true_r. intro Hn.
     destruct (Cargs (Hokall Hn)) as (kc & Kc & Tk & Dc & Uc & LS).
     exists (c :: nt :: kc ++ u2).
-    split; [apply Kept_keep, Kept_keep, Kept_app; [exact Kc | apply Kept_refl]|]. split.
+    pose proof (KeptJ_Kept _ _ _ _ (Kc c Ec)) as Kc'.
+    split; [intros p2 p1; apply KJ_keep, KJ_keep, KeptJ_app;
+            [apply Kc; exact Ec | apply KeptJ_refl]|].
+    split.
     { rewrite app_assoc, (Tbegin kc Tk), T2.
       change (c :: nt :: kc ++ u2) with ((c :: nt :: kc) ++ u2). rewrite texts_app. reflexivity. }
     split; [apply LKU_LKP, LKU_two; exact Hcs|].
@@ -2417,7 +2564,9 @@ Proof.
   destruct (Cargs (Hokall Hn)) as (kc & Kc & Tk & Dc & Uc & LS).
   destruct (C2 Hn3) as (k2 & K2 & T2 & L2 & D2 & U2 & P2).
   exists (c :: nt :: kc ++ k2).
-  split; [apply Kept_keep, Kept_keep, Kept_app; assumption|]. split.
+  pose proof (KeptJ_Kept _ _ _ _ (Kc c Ec)) as Kc'.
+  split; [intros p2 p1; apply KJ_keep, KJ_keep, KeptJ_app; [apply Kc; exact Ec | apply K2]|].
+  split.
   { rewrite app_assoc, (Tbegin kc Tk), T2.
     change (c :: nt :: kc ++ k2) with ((c :: nt :: kc) ++ k2). rewrite texts_app. reflexivity. }
   split; [apply LKU_LKP, LKU_two; exact Hcs|]. split.
@@ -2459,14 +2608,14 @@ Lemma read_tex_loop_fp fuel efuel skip : forall acc toks body,
   sub_skip SK skip -> Hyp toks ->
   read_tex_loop fuel efuel skip true acc toks = Ok body ->
   exists new, body = acc ++ new /\ (forallb nobare new = true ->
-    exists kept, Kept toks kept /\ estr_list new = texts kept /\ LK toks kept /\ PV toks kept /\
+    exists kept, KJall toks kept /\ estr_list new = texts kept /\ LK toks kept /\ PV toks kept /\
       (forall fuel' efuel' r, read_tex_loop fuel' efuel' skip true acc kept = Ok r -> r = body) /\
       (frag toks = true -> read_tex_loop fuel efuel skip true acc kept = Ok body)).
 Proof.
   induction fuel as [|fu IH]; intros acc toks body Hsk Hy H; [discriminate|].
   cbn [read_tex_loop] in H. destruct toks as [|t ts].
   - inversion H; subst. exists []. split; [symmetry; apply app_nil_r|]. intros _.
-    exists []. split; [constructor|]. split; [reflexivity|]. split; [apply LK_nil|].
+    exists []. split; [apply KJall_nil|]. split; [reflexivity|]. split; [apply LK_nil|].
     split; [apply PV_refl|]. split; [|reflexivity].
     intros fuel' efuel' r HB. destruct fuel' as [|fu']; [discriminate HB|].
     cbn in HB. inversion HB. reflexivity.
@@ -2479,7 +2628,7 @@ Proof.
     intro Hn. simpl in Hn. apply andb_true_iff in Hn. destruct Hn as [Hn1 Hn2].
     destruct (C1 Hn1) as (k1 & K1 & T1 & L1 & D1 & U1 & P1).
     destruct (C2 Hn2) as (k2 & K2 & T2 & L2 & Pv2 & D2 & U2).
-    exists (k1 ++ k2). split; [rewrite Eu1; apply Kept_app; assumption|]. split.
+    exists (k1 ++ k2). split; [rewrite Eu1; apply KJall_app; assumption|]. split.
     { change (estr_list (e :: new)) with (estr e ++ estr_list new).
       rewrite T1, T2, texts_app. reflexivity. }
     assert (Hlk : LK (t :: ts) (k1 ++ k2)) by (rewrite Eu1; apply L1; exact L2).
@@ -2516,7 +2665,7 @@ Proof. induction 1; simpl in *; lia. Qed.
 
 Theorem parse_tokens_drop_run toks user t :
   Hyp (all_skip user) toks -> parse_tokens toks true user = Ok t -> nobare t = true ->
-  exists kept, Kept toks kept /\ estr t = texts kept /\
+  exists kept, Kept toks kept /\ KeptJ None None toks kept /\ estr t = texts kept /\
     (forall t', parse_tokens kept true user = Ok t' -> t' = t) /\
     (frag toks = true -> parse_tokens kept true user = Ok t).
 Proof.
@@ -2525,12 +2674,13 @@ Proof.
   apply (read_tex_loop_fp (all_skip user)) in Hb; [|intros n Hm; exact Hm | exact Hy].
   destruct Hb as (new & -> & C). cbn [app nobare] in Hn.
   destruct (C Hn) as (kept & K & T & _ & _ & D & U).
-  exists kept. split; [exact K|]. split; [exact T|]. split.
+  pose proof (KJall_Kept _ _ K) as K'.
+  exists kept. split; [exact K'|]. split; [apply K|]. split; [exact T|]. split.
   { intros t' HB. unfold parse_tokens in HB.
     apply bind_ok in HB. destruct HB as (body' & Hb' & HB). inversion HB; subst t'.
     apply D in Hb'. subst body'. reflexivity. }
   intro Hf. specialize (U Hf). unfold parse_tokens.
-  pose proof (Kept_length _ _ K) as Hlen.
+  pose proof (Kept_length _ _ K') as Hlen.
   pose proof (tex_loop_mono (Tables.skip_env_names ++ user) (S (length kept)) (S (length toks))
                 (fuel_for kept) (fuel_for toks) [] kept ltac:(lia)
                 ltac:(unfold fuel_for; lia)) as M.
@@ -3139,7 +3289,7 @@ Proof.
   intros H Hcl Hq Hq' Hb Hn Hctx.
   apply parse_unfold in H. destruct H as (toks & Etok & Hp). rewrite Etok in *. cbn [fst] in *.
   pose proof (Hyp_of_tokenizer s toks TEnd _ Etok Hb) as Hy.
-  destruct (parse_tokens_drop_run toks user t Hy Hp Hn) as (kept & K & T & D & U).
+  destruct (parse_tokens_drop_run toks user t Hy Hp Hn) as (kept & K & KJ & T & D & U).
   destruct (TokInverse.tokens_shaped s Hcl Hq) as (toks0 & E0 & _ & Hsh & Hfo & Hfirst & _).
   rewrite Etok in E0. inversion E0; subst toks0.
   pose proof (Kept_DropSp toks kept K [] Hsh Hctx) as DS. cbn [app] in DS.
@@ -3478,6 +3628,28 @@ Proof.
   exact (C16_fixed_point exD [] treeD exD_parses exD_clean exD_quirk exD_quirk' exD_hyp
            exD_nobare exD_ctx exD_frag).
 Qed.
-(* exB has an \item with an optional label: outside the fragment *)
-Example exB_not_frag : frag (fst (tokens_of_string exB)) = false.
+(* exB (an \item with a simple label `[b]`) is in the fragment too *)
+Example exB_frag : frag (fst (tokens_of_string exB)) = true.
 Proof. vm_compute. reflexivity. Qed.
+Example exB_fixed_point_full :
+  exists t', parse (estr treeB) true [] = Ok t' /\ expr_pos_sim treeB t' /\ estr t' = estr treeB.
+Proof.
+  exact (C16_fixed_point exB [] treeB exB_parses exB_clean exB_quirk exB_quirk' exB_hyp
+           exB_nobare exB_ctx exB_frag).
+Qed.
+
+(* outside the fragment: an \item label with markup, a group right after
+   \end{name}; both are fixed points of the real code and of the model (computed),
+   but C16_fixed_point does not apply *)
+Example outside_frag :
+  let s1 := [92; 105; 116; 101; 109; 91; 92; 97; 32; 123; 98; 125; 93; 32; 120]%N in
+  let s2 := [92; 98; 101; 103; 105; 110; 123; 97; 125; 120; 92; 101; 110; 100; 123; 97; 125; 123;
+             92; 98; 32; 123; 99; 125; 125]%N in
+  frag (fst (tokens_of_string s1)) = false /\ frag (fst (tokens_of_string s2)) = false /\
+  (exists t t', parse s1 true [] = Ok t /\ parse (estr t) true [] = Ok t' /\ estr t' = estr t) /\
+  (exists t t', parse s2 true [] = Ok t /\ parse (estr t) true [] = Ok t' /\ estr t' = estr t).
+Proof.
+  cbv zeta. split; [vm_compute; reflexivity|]. split; [vm_compute; reflexivity|].
+  split; eexists; eexists; (split; [vm_compute; reflexivity|]);
+    (split; [vm_compute; reflexivity|]); vm_compute; reflexivity.
+Qed.
